@@ -161,6 +161,12 @@ def check(ctx):
             if rule == "R02.2" and "available_elements_count" in key: return super().ob(rule, key, ok, site, detail, nontrivial, undecided)
             return ok
     util.guarded(ctx, C02.check, OnlyLen(ctx, "R20.8"))
+    # ... and the channels' pending_items_count is that backlog and nothing else (no count of sends "still being built"): shared with C06 R06.6
+    sub6 = util.fresh_ctx(ctx, "C06")
+    util.guarded(ctx, importlib.import_module("props.C06").check, sub6)
+    for o in sub6.obs:
+        if o["rule"] == "R06.6" and "is-the-real-backlog" in o["key"]:
+            ctx.ob("R20.8", o["key"], o["ok"], o["site"], o["detail"], o["nontrivial"])
     if not getattr(ctx, "deferred_infra", None): ctx.floor("R20.8", 2)
 
 
@@ -198,6 +204,8 @@ def _r20_6(ctx):
                    "no loop that waits (spin / yield / sleep / atomic poll) in this producer operation" if bad is None else
                    f"{bad[1]}: this producer operation waits for somebody else's progress -- with another producer's async setter suspended it may wait forever")
     n += check_container_no_wait(ctx, "R20.6")
+    import importlib as _il
+    n += _il.import_module("props.C01").check_crossbeam_setter_sends(ctx, "R20.6")      # the async re-send yields, it never spins inside a poll
     ctx.floor("R20.6", 70)
 
 
